@@ -148,6 +148,12 @@ func planC08sweep(c *Ctx, run int64) *Plan {
 			add("alter", n.Ptr, Op{I: int64(r.IntN(1 << 20))})
 			add("caseflip", n.Ptr, Op{I: int64(r.IntN(1 << 20))})
 			add("append", n.Ptr, Op{S2: Pick(r, []string{"T23:59:59", " ", "0", ".0", "a", "Z", "-", "%"})})
+			// white space around a text: the kind of difference a lenient reader or a
+			// tidying validation rule makes disappear
+			if n.V.S != "" && !strings.HasSuffix(n.V.S, " ") {
+				add("append", n.Ptr, Op{S2: Pick(r, []string{" ", "\t", "\n"})})
+				add("setstr", n.Ptr, Op{S2: " " + n.V.S})
+			}
 			if n.Key == "$regime" || n.Key == "country" {
 				// another defined code, including the alternative codes some countries have
 				for _, alt := range []string{"GR", "EL", "GB", "XI", "XU", "ES", "PT"} {
